@@ -180,7 +180,7 @@ def validate(ctx, events, shards=14):
     # thorough: many more pieces than workers, so that one expensive piece (wide numbers, long
     # scripts) does not leave the other workers idle
     if ctx.tier == "thorough" and n > 20000:
-        shards = max(shards * 6, n // 12000)
+        shards = max(shards * 6, n // 3000)
     shards = max(1, min(shards, len(resets)))
     cuts = [0]
     for k in range(1, shards):
